@@ -94,6 +94,7 @@ def check(ctx):
     ctx.ok("R18.1", "no store event targets a caller-owned object (%d store events, %d runs)" %
            (n_events, len(traces)), construct="all entries", where="mabwiser/")
     # R18.4: a converter / validator branch taken for one container type must be able to run for every policy
+    ctx.rule("R18.5", "the Series reshape of __convert_context counts features, not stored rows")
     ctx.rule("R18.4", "no container-specific branch of the facade's converters and validators reads an attribute the "
                       "implementor cannot have")
     n_conv = 0
@@ -112,6 +113,30 @@ def check(ctx):
                         "%s has no attribute `%s` (AttributeError) on the branch %s: the same data in another "
                         "container is accepted [%s %s]" % (ev.a["cls"], ev.a["name"], branch[-1:] or "?", c.name, label))
     ctx.floor("R18.4", "converter / validator calls on traces", n_conv, 500)
+    # R18.5: a pandas Series of contexts is one row or one column depending on the number of features of the
+    # training data; that number is the second dimension of the stored contexts (or the size of a coefficient
+    # vector / the feature importances of a tree), never the number of stored rows
+    cf = prog.method("MAB", "__convert_context") if "__convert_context" in prog.cls("MAB").methods else \
+        prog.cls("MAB").methods.get("_MAB__convert_context")
+    n_feat = 0
+    if cf is not None:
+        counted = {ast.unparse(x.left) for x in ast.walk(cf.node) if isinstance(x, ast.Compare) and
+                   len(x.ops) == 1 and isinstance(x.ops[0], ast.Eq) and isinstance(x.left, ast.Name) and
+                   ast.unparse(x.comparators[0]) == "1"}
+        for st in ast.walk(cf.node):
+            if isinstance(st, ast.Assign) and len(st.targets) == 1 and isinstance(st.targets[0], ast.Name) and \
+                    st.targets[0].id in counted:
+                v = st.value
+                n_feat += 1
+                if isinstance(v, ast.Subscript) and isinstance(v.value, ast.Attribute) and v.value.attr == "shape":
+                    ctx.check(ast.unparse(v.slice) == "1", "R18.5", "the number of features of a Series is taken "
+                              "from the column dimension of the stored contexts", st, cf,
+                              "`%s` counts the stored rows: a Series of several single-feature contexts is then "
+                              "reshaped as one row (or the reverse), while the same data as list / ndarray / "
+                              "DataFrame is accepted" % ast.unparse(v))
+                else:
+                    ctx.ok("R18.5", "feature count `%s` is not a shape index" % ast.unparse(v)[:50], st, cf)
+    ctx.floor("R18.5", "feature-count definitions in __convert_context", n_feat, 4)
     ctx.floor("R18.1", "store events examined", n_events, 3000)
     ctx.floor("R18.1", "bandit fields aliasing caller data", len(aliased_fields), 8)
     _type_tables(ctx)
